@@ -148,6 +148,10 @@ def main():
             for j in range(4):
                 want = base + 16 * ((r + dr) * Cn + (c + dc)) + 4 * j
                 res_off.append(E.prove(offs[4 * m + j] == want, hyp_rc, use_axioms=False, timeout=20000))
+                if res_off[-1]['result'] != 'discharged':
+                    break               # the clause is already not discharged: no need to spend the budget of the remaining nodes
+            if res_off and res_off[-1]['result'] != 'discharged':
+                break
         oko = okall and all(x_['result'] == 'discharged' for x_ in res_off)
         P.oblige('ntv2_%s.node_offsets' % method, 'ntv2reader.SubGrid.ntv2_%s' % method, '%d nodes x 4 fields' % len(order),
                  dict(result='discharged' if oko else 'sat', backend=E.Z3V, ms=sum(x_['ms'] for x_ in res_off)), strict=True,
@@ -181,6 +185,8 @@ def main():
             if rv['result'] != 'discharged' and os.environ.get('VERIF_DEBUG_C17'):
                 print('VALUE got', got, '\nwant', want)
             okv = okv and rv['result'] == 'discharged'
+            if not okv:
+                break
         P.oblige('ntv2_%s.value' % method, 'ntv2reader.SubGrid.ntv2_%s' % method, '4 fields', dict(result='discharged' if okv else 'sat', backend=E.Z3V, ms=0), strict=True,
                  note='field_j = round6(kernel(node values of field j in stencil order, x, y)) with x = (lon - e_long)/long_inc - col, y = (lat - s_lat)/lat_inc - row in [0,1)')
 
